@@ -35,6 +35,14 @@ CHECKS["C03"] = dict(
          "of AAA..CWD, CBW/CWD sign dependency. Does NOT decide products, quotients or decimal-adjust results as numbers.",
     design="DESIGN.md §6 C03")
 
+CHECKS["C04"] = dict(
+    technique="abstract interpretation of MIR with an affine-with-modulus domain; closed-form comparison against the Intel address form (witness = valuation of the symbols of the two forms); bit domain for register aliasing and lanes",
+    text="Decides, for every alternative of memory_addr (105 register/override/number variants), the label forms and LEA: required register/"
+         "segment dependencies (default SS iff BP), equality of the exact address form with (16*seg + offset16) mod 2^20, address < 2^20, exact "
+         "byte-register aliasing, word lanes m / m+1 low-first in every interpreter action, LEA touching neither memory nor flags and loading the "
+         "offset. Does not decide aliasing of overlapping operands.",
+    design="DESIGN.md §6 C04")
+
 NOT_YET = {}
 
 
